@@ -65,6 +65,34 @@ def check(run):
             + [(pos + o, 4) for pos in range(2048 + hdr, len(dat), 128) for o in (0, 8, 12)] \
             + [(pos + o, 1) for pos in range(2048 + hdr, len(dat), 128) for o in (16, 17, 18, 20, 24)]
         bases.append(faults.base("dat:" + name, "dat.read", dat, fields, off=2048, path_fault="none"))
+    # materials, shader packages and the auxiliary assets: valid bases from the C14 / C16 generators
+    from checks import c14, c16
+    from gen import mtrlshpk, assets16
+    rng_run, rng = rng, random.Random(1800)      # these bases are the same in every run: known findings name their field offsets
+    for kind in ("legacy", "dawntrail", None):
+        mb_ = mtrlshpk.mtrl(c14.material(rng, kind))
+        bases.append(faults.base("mtrl:%s" % (kind or "plain"), "mtrl", mb_, faults.words(len(mb_), 200) + [(4, 2), (6, 2), (8, 2), (10, 2), (12, 1), (13, 1), (14, 1), (15, 1)]
+                                 + faults.words(len(mb_) - 4, len(mb_), 4)[-40:]))
+    pk, _ = c14.package(rng)
+    pb_ = mtrlshpk.shpk(pk)
+    bases.append(faults.base("shpk:gen", "shpk", pb_, faults.words(len(pb_), 160) + [(o, 4) for o in range(160, len(pb_) - 4, 12)][:200]))
+    sk = [("n_root", -1, [rng.getrandbits(32) for _ in range(12)]), ("j_kosi", 0, [rng.getrandbits(32) for _ in range(12)]), ("j_kosi", 1, [0] * 12)]
+    for ver in (1, 2):
+        tag = assets16.skeleton_tagfile([sk], rng, rich=ver == 2)
+        sb_ = assets16.sklb(ver, tag)
+        h = 28 if ver == 1 else 36
+        bases.append(faults.base("sklb:v%d" % ver, "sklb", sb_, [(0, 4), (4, 4), (8, 2), (10, 2), (8, 4), (12, 4), (h, 4), (h + 4, 4)]
+                                 + [(o, 1) for o in range(h + 8, len(sb_) - 150)]))
+    items = [{"body_id": 101, "parent": -1, "bones": [("j_kosi", [1] * 12)]}, {"body_id": 201, "parent": 0, "bones": [("n_hara", [2] * 12), ("j_kao", [3] * 12)]},
+             {"body_id": 301, "parent": 0, "bones": []}, {"body_id": 401, "parent": 1, "bones": [("x", [4] * 12)]}]
+    pd_ = assets16.pbd(items, perm=[2, 0, 3, 1])
+    bases.append(faults.base("pbd:gen", "pbd", pd_, [(0, 4)] + [(4 + 12 * i + o, w) for i in range(4) for (o, w) in ((0, 2), (2, 2), (4, 4))]
+                             + [(52 + 8 * i + o, 2) for i in range(4) for o in (0, 2, 4, 6)] + faults.words(len(pd_), len(pd_))[21:]))
+    tb_ = assets16.tera(128, [(0, 0), (-1, 5), (300, -300)])
+    bases.append(faults.base("tera:gen", "tera", tb_, [(0, 4), (4, 4), (8, 4), (12, 4), (16, 4), (52, 2), (54, 2), (60, 2)]))
+    lg_ = open(REPO + "/resources/tests/empty_planlive.lgb", "rb").read()
+    bases.append(faults.base("lgb:empty", "lgb", lg_, faults.words(len(lg_), 36)))
+    rng = rng_run
     space, st = faults.enumerate_faults(bases, "c18")
     run.notes["fault_space"] = {"bases": len(bases), "faults": sum(len(v) for v in space.values()), **st}
     run.mc.append({"module": "mc/Gen_Faults.tla", "cfg": "mc/Gen_Faults.cfg", "states": st["states"], "transitions": st["transitions"],
@@ -118,13 +146,14 @@ def check(run):
                                      leakcheck=True, off=2048, path_fault="none"))
     cases.append(Case(extra, desc={"installation fault sequences": len(extra)}))
     run.rule = ("every (base, fault) pair of the fault space enumerated by TLC from Faults.tla over generated valid bases (model, four texture "
-                "formats, EXH, EXD incl. read_row on every id, index, dat entries of each kind; quick: a seeded 300 per base), arbitrary "
+                "formats, EXH, EXD incl. read_row on every id, index, dat entries of each kind, three materials, shader package, skeleton "
+                "containers v1 / v2 byte by byte through the tag file, deformer with queries, terrain, layer group; quick: a seeded 300 per base), arbitrary "
                 "blobs (zero / ones / random / magic-prefixed, 12 sizes) for every asset entry point incl. the header-only formats, and "
                 "installation fault sequences (missing / truncated index and dat at structure boundaries, stray directories); isolated "
                 "worker, counting allocator; residual heap must be 0 after a failed dat read; distinct by input, all non-trivial")
     run.conform(cases, MODULE, CFG, shards=14, mode="supervise", xmx="3g")
-    run.assumptions = ["material / shader / skeleton / deformer / terrain / dictionary / layer / effect formats are exercised with arbitrary and "
-                       "magic-prefixed blobs until their generators (C14 / C16) provide valid bases",
+    run.assumptions = ["dictionary / staining template / effect / UI / scene / sound / timeline formats are exercised with arbitrary and "
+                       "magic-prefixed blobs only (no generator for valid files of these header-only decoders)",
                        "memory bound 256 MiB + 1100 bytes per input byte; undefined behaviour that does not crash is outside this technique"]
 
 
